@@ -17,7 +17,7 @@ Definition fa_out_class (o : fa_out) := match o with OErr e => fa_err_class e | 
 
 (** "a pending incomplete search sits in a full buffer" -- what makes the
     adopted capacity equal to the policy's answer.  Holds in every state reached
-    without an I/O error (see [fa_FullInc_preserved] in GrowP.v). *)
+    without running out of fuel (see [fa_invariants_preserved] in GrowSitesP.v). *)
 Definition FullInc (r : fa) : Prop := st r = FIncomplete -> cap r <= length (buf r).
 
 Lemma Run_eq ex a b : a = b -> Run ex a b None.
